@@ -51,6 +51,107 @@ pub struct Knobs {
     pub other_seen: usize,
     /// (clock read number, mono jump ns, wall jump ns): applied just before that read
     pub clock_jump: Option<(u64, i128, i128)>,
+    /// forge the answer to the k-th request of the step
+    pub forge: Option<Forge>,
+    pub req_in_step: usize,
+}
+
+/// An unauthenticated answer: forgery kind x payload (see `forged_answer`).
+#[derive(Clone, Copy, Debug, PartialEq)]
+pub struct Forge {
+    pub at: usize,
+    pub kind: usize,
+    pub payload: usize,
+    /// for replays: index (into `Inner::exchanges`) of the earlier genuine exchange
+    pub replay_of: usize,
+}
+
+pub const FORGE_KINDS: &[&str] = &[
+    "no ETag",
+    "garbage ETag",
+    "genuine ETag over a different body",
+    "signed by an unregistered key",
+    "signed by a registered key under the wrong id",
+    "replay of an earlier genuine response",
+    "genuine ETag computed for the sibling (previous) request",
+];
+pub const FORGE_PAYLOADS: &[&str] = &[
+    "no-update document",
+    "update offer",
+    "cohort + daystart change",
+    "no-update + X-Retry-After: 7",
+    "HTTP 500",
+    "HTTP 500 + X-Retry-After: 7",
+];
+
+pub fn forged_answer(w: &Inner, req: &WireReq, f: &Forge, app_ids: &[String]) -> HttpAns {
+    let mk_doc = |uc: crate::docgen::Uc, cohort: bool| {
+        let apps: Vec<AppDoc> = app_ids
+            .iter()
+            .map(|id| {
+                let mut a = AppDoc::new(id, uc.clone());
+                if cohort {
+                    a.cohort = (Some("FORGED-C".into()), Some("FORGED-H".into()), Some("FORGED-N".into()));
+                }
+                a
+            })
+            .collect();
+        response_bytes(&apps, &if cohort { Daystart::Days(6666) } else { Daystart::Absent })
+    };
+    let (body, status, retry): (Vec<u8>, u16, bool) = match f.payload {
+        0 => (mk_doc(crate::docgen::Uc::NoUpdate, false), 200, false),
+        1 => (mk_doc(crate::docgen::Uc::OkManifest("6.6.6.6".into()), false), 200, false),
+        2 => (mk_doc(crate::docgen::Uc::NoUpdate, true), 200, false),
+        3 => (mk_doc(crate::docgen::Uc::NoUpdate, false), 200, true),
+        4 => (mk_doc(crate::docgen::Uc::OkManifest("6.6.6.6".into()), true), 500, false),
+        _ => (mk_doc(crate::docgen::Uc::NoUpdate, true), 500, true),
+    };
+    let mut spec = RespSpec::ok(body.clone()).status(status);
+    if retry {
+        spec = spec.header("X-Retry-After", b"7");
+    }
+    let c2k = req.cup2key.clone().unwrap_or_default();
+    match f.kind {
+        0 => spec.etag = EtagSpec::Absent,
+        1 => spec.etag = EtagSpec::Raw(b"deadbeef:cafe".to_vec()),
+        2 => {
+            // genuine signature over another body
+            let mut other = body.clone();
+            other.extend_from_slice(b" ");
+            spec.sign_body = Some(other);
+            spec.etag = EtagSpec::Key(0);
+        }
+        3 => spec.etag = EtagSpec::Key(2),
+        4 => spec.etag = EtagSpec::Key(1),
+        5 => {
+            // replay: body, status line and headers of an earlier genuine exchange
+            match w.exchanges.get(f.replay_of) {
+                Some(Exchange { ans: HttpAns::Resp(old), final_headers, .. }) => {
+                    spec = old.clone();
+                    spec.etag = EtagSpec::Absent;
+                    spec.sign_body = None;
+                    spec.headers = final_headers.clone();
+                }
+                _ => spec.etag = EtagSpec::Absent,
+            }
+        }
+        _ => {
+            // ETag that would be genuine for the previous request (other body / nonce)
+            match w.exchanges.last() {
+                Some(prev) if prev.req.cup2key.is_some() => {
+                    let k = &w.keys.keys[0].1;
+                    spec.etag = EtagSpec::Raw(crate::cupsign::etag(k, &prev.req.body, &body, prev.req.cup2key.as_ref().unwrap()).into_bytes());
+                }
+                _ => {
+                    // no sibling yet: genuine composition but for a different nonce
+                    let k = &w.keys.keys[0].1;
+                    spec.etag = EtagSpec::Raw(crate::cupsign::etag(k, &req.body, &body, &format!("42:{}", "ab".repeat(32))).into_bytes());
+                }
+            }
+        }
+    }
+    let _ = c2k;
+    HttpAns::Resp(spec)
 }
 
 impl Default for Knobs {
@@ -74,6 +175,8 @@ impl Default for Knobs {
             timing_min_wait: None,
             other_seen: 0,
             clock_jump: None,
+            forge: None,
+            req_in_step: 0,
         }
     }
 }
@@ -127,8 +230,18 @@ impl Director for HistDirector {
             other => other,
         }
     }
-    fn http(&mut self, _w: &mut Inner, req: &WireReq) -> HttpAns {
+    fn http(&mut self, w: &mut Inner, req: &WireReq) -> HttpAns {
         let mut k = self.knobs.lock().unwrap();
+        let pos = k.req_in_step;
+        k.req_in_step += 1;
+        if let Some(f) = k.forge {
+            if f.at == pos {
+                if req.kind != ReqKind::UpdateCheck {
+                    k.other_seen += 1;
+                }
+                return forged_answer(w, req, &f, &self.app_ids);
+            }
+        }
         match req.kind {
             ReqKind::UpdateCheck => {
                 let h = k.uc_retry_after.clone();
@@ -295,6 +408,7 @@ impl Hist {
     /// One scheduled check: fire the wait timers, run to the next quiescent point.
     pub fn check(&mut self) {
         self.knobs().other_seen = 0;
+        self.knobs().req_in_step = 0;
         if self.in_reboot_wait() {
             self.problems.push("driver: check requested during the reboot wait".into());
             return;
@@ -327,6 +441,7 @@ impl Hist {
     /// One ping during the reboot wait.
     pub fn ping(&mut self) {
         self.knobs().other_seen = 0;
+        self.knobs().req_in_step = 0;
         if !self.in_reboot_wait() {
             self.problems.push("driver: ping requested outside the reboot wait".into());
             return;
